@@ -147,10 +147,14 @@ IndexNext ==
 
 \* ======================================================================== eq
 \* index = {S1, S2} built.  Query objects with user options (maxResults, limit).
-Queries == {"Q1", "Q2", "Q3"}
+\* Q4: at most 3 results with a permitted error, used with ShapeIndex targets (one point at
+\* the named position): this is the configuration in which the search keeps a set of already
+\* tested edges, per-call scratch state that must not survive the call.
+Queries == {"Q1", "Q2", "Q3", "Q4"}
 UserOpts == [Q1 |-> [max |-> Inf, limit |-> "inf"],
              Q2 |-> [max |-> 3, limit |-> "inf"],
-             Q3 |-> [max |-> Inf, limit |-> "near"]]
+             Q3 |-> [max |-> Inf, limit |-> "near"],
+             Q4 |-> [max |-> 3, limit |-> "inf"]]
 Targets == {"P0", "P1", "P2"}
 EqPresent == {"S1", "S2"}
 \* number of edges within the limit of the target
